@@ -76,75 +76,102 @@ proof! {
 	}
 }
 
+fn rebuild(
+	id: SegmentIdentifier,
+	parts: &(Vec<u64>, Vec<Hash>, Vec<u64>, Vec<Elem>, Vec<Hash>),
+) -> Segment<Elem> {
+	Segment::from_parts(id, parts.0.clone(), parts.1.clone(), parts.2.clone(), parts.3.clone(), proof_from(parts.4.clone()))
+}
+
 proof! {
 	[hash_ideal, rand] fn segment_sound() {
-		let (ba, leaves) = build();
+		// indices enumerated concretely, substituted values symbolic
+		let (ba, _leaves) = build();
 		let mmr = ReadonlyPMMR::at(&ba, SIZE);
 		let root = mmr.root().unwrap();
 		let id = SegmentIdentifier { height: H, idx: IDX };
 		let seg = Segment::<Elem>::from_pmmr(id, &mmr, false).unwrap();
 		check!(seg.validate(SIZE, None, root).is_ok(), "honest segment validates");
-		let (id, hash_pos, hashes, mut leaf_pos, mut leaf_data, proof) = seg.parts();
-		let mut ph = proof_hashes(proof);
-		let mut id2 = id;
-		let kind: u8 = nd::any();
-		nd::assume(kind < 6);
-		match kind {
-			0 => {
-				// a leaf's data
-				let j: usize = nd::any();
-				nd::assume(j < leaf_data.len());
-				let e = Elem(nd::any());
-				nd::assume(e != leaf_data[j]);
-				leaf_data[j] = e;
-				cover!(true, "leaf data changed");
+		let (id, hash_pos, hashes, leaf_pos, leaf_data, proof) = seg.parts();
+		let honest = (hash_pos, hashes, leaf_pos, leaf_data, proof_hashes(proof));
+		let x: [u8; 32] = nd::any();
+		let xh = Hash::from_vec(&x);
+		let e = Elem(nd::any());
+		// (1) a leaf's data
+		let mut j = 0;
+		while j < honest.3.len() {
+			if e != honest.3[j] {
+				let mut p = (honest.0.clone(), honest.1.clone(), honest.2.clone(), honest.3.clone(), honest.4.clone());
+				p.3[j] = e;
+				let s2 = rebuild(id, &p);
+				check!(s2.validate(SIZE, None, root).is_err(), "changed leaf data never validates");
+				core::mem::forget(s2);
 			}
-			1 => {
-				// a leaf's position (kept strictly increasing so that from_parts accepts it)
-				let j: usize = nd::any();
-				nd::assume(j < leaf_pos.len());
-				let p: u64 = nd::any();
-				nd::assume(p != leaf_pos[j] && p < 64);
-				nd::assume(j == 0 || leaf_pos[j - 1] < p);
-				nd::assume(j + 1 >= leaf_pos.len() || p < leaf_pos[j + 1]);
-				leaf_pos[j] = p;
-				cover!(true, "leaf position changed");
-			}
-			2 => {
-				// a proof hash
-				let j: usize = nd::any();
-				nd::assume(j < ph.len());
-				let x: [u8; 32] = nd::any();
-				nd::assume(Hash::from_vec(&x) != ph[j]);
-				ph[j] = Hash::from_vec(&x);
-				cover!(true, "proof hash changed");
-			}
-			3 => {
-				// a leaf dropped
-				nd::assume(!leaf_data.is_empty());
-				let last: bool = nd::any();
-				if last { leaf_data.pop(); leaf_pos.pop(); } else { leaf_data.remove(0); leaf_pos.remove(0); }
-				cover!(true, "leaf dropped");
-			}
-			4 => {
-				// a proof hash dropped
-				nd::assume(!ph.is_empty());
-				ph.pop();
-				cover!(true, "proof hash dropped");
-			}
-			_ => {
-				// another identifier (same height, other index)
-				let i2: u64 = nd::any();
-				nd::assume(i2 != IDX && i2 < 4);
-				id2 = SegmentIdentifier { height: H, idx: i2 };
-				cover!(true, "identifier changed");
-			}
+			j += 1;
 		}
-		let _ = &leaves;
-		let seg2 = Segment::from_parts(id2, hash_pos, hashes, leaf_pos, leaf_data, proof_from(ph));
-		let r = seg2.validate(SIZE, None, root);
-		check!(r.is_err(), "a segment with any part its root depends on corrupted never validates");
-		core::mem::forget(seg2);
+		// (2) a proof hash
+		j = 0;
+		while j < honest.4.len() {
+			if xh != honest.4[j] {
+				let mut p = (honest.0.clone(), honest.1.clone(), honest.2.clone(), honest.3.clone(), honest.4.clone());
+				p.4[j] = xh;
+				let s2 = rebuild(id, &p);
+				check!(s2.validate(SIZE, None, root).is_err(), "changed proof hash never validates");
+				core::mem::forget(s2);
+			}
+			j += 1;
+		}
+		// (3) a leaf dropped (first / last)
+		if !honest.3.is_empty() {
+			let mut p = (honest.0.clone(), honest.1.clone(), honest.2.clone(), honest.3.clone(), honest.4.clone());
+			p.2.pop();
+			p.3.pop();
+			let s2 = rebuild(id, &p);
+			check!(s2.validate(SIZE, None, root).is_err(), "dropping the last leaf never validates");
+			core::mem::forget(s2);
+			let mut p = (honest.0.clone(), honest.1.clone(), honest.2.clone(), honest.3.clone(), honest.4.clone());
+			p.2.remove(0);
+			p.3.remove(0);
+			let s2 = rebuild(id, &p);
+			check!(s2.validate(SIZE, None, root).is_err(), "dropping the first leaf never validates");
+			core::mem::forget(s2);
+		}
+		// (4) a proof hash dropped
+		if !honest.4.is_empty() {
+			let mut p = (honest.0.clone(), honest.1.clone(), honest.2.clone(), honest.3.clone(), honest.4.clone());
+			p.4.pop();
+			let s2 = rebuild(id, &p);
+			check!(s2.validate(SIZE, None, root).is_err(), "dropping a proof hash never validates");
+			core::mem::forget(s2);
+		}
+		// (5) a leaf moved to another position (positions of the mmr, kept strictly increasing)
+		j = 0;
+		while j < honest.2.len() {
+			let mut q = 0u64;
+			while q < SIZE {
+				let lo_ok = j == 0 || honest.2[j - 1] < q;
+				let hi_ok = j + 1 >= honest.2.len() || q < honest.2[j + 1];
+				if q != honest.2[j] && lo_ok && hi_ok {
+					let mut p = (honest.0.clone(), honest.1.clone(), honest.2.clone(), honest.3.clone(), honest.4.clone());
+					p.2[j] = q;
+					let s2 = rebuild(id, &p);
+					check!(s2.validate(SIZE, None, root).is_err(), "a leaf at another position never validates");
+					core::mem::forget(s2);
+				}
+				q += 1;
+			}
+			j += 1;
+		}
+		// (6) another identifier
+		let mut i2 = 0u64;
+		while i2 < 4 {
+			if i2 != IDX {
+				let s2 = rebuild(SegmentIdentifier { height: H, idx: i2 }, &honest);
+				check!(s2.validate(SIZE, None, root).is_err(), "the same parts under another identifier never validate");
+				core::mem::forget(s2);
+			}
+			i2 += 1;
+		}
 		core::mem::forget(ba);
 	}
 }
